@@ -10,8 +10,9 @@
                    through patronus' interpreter)
    and never err / unknown / panic / timeout / crash.
    Keys are stable class names; the qualifier ":init-reads-input" is structural (some init
-   expression mentions an input symbol), "(C04)" marks the inherited BMC encoding defect
-   (duplicate definition in the SMT script; detected in the recorded script, not by the message). *)
+   expression mentions an input symbol), "(C04)" marks an inherited defect of the BMC
+   encoding (duplicate definition / use before declaration in the SMT script; detected in the recorded
+   script, not by the message). *)
 open Model
 open Conv
 
@@ -101,6 +102,9 @@ let handle (x : Sexp.t) : string =
   let dupdef = match Sexp.field_opt "script" fs with
     | Some l -> (match Sexp.field_opt "dupdef" l with Some [Sexp.Str n] -> Some n | _ -> None)
     | None -> None in
+  let usebefore = match Sexp.field_opt "script" fs with
+    | Some l -> (match Sexp.field_opt "usebefore" l with Some [Sexp.Str n] -> Some n | _ -> None)
+    | None -> None in
   let (cls, bits, spec) = spec_of sys_sx sy in
   let qual = if init_reads_input sy then ":init-reads-input" else "" in
   match spec with
@@ -132,10 +136,12 @@ let handle (x : Sexp.t) : string =
        | Sexp.List (Sexp.Atom "err" :: Sexp.Str msg :: _), _ ->
            let cls =
              if dupdef <> None then "duplicate-definition(C04)"
+             else if usebefore <> None then "use-before-declare(C04)"
              else if contains msg "original cube intersects with init" then "cube-intersects-init"
              else if contains msg "unknown" then "solver-unknown"
              else "other" in
-           res "fail" ("pdr:err:" ^ cls ^ qual) ("error instead of a verdict: " ^ msg ^ (match dupdef with Some n -> " [script defines " ^ n ^ " twice]" | None -> ""))
+           res "fail" ("pdr:err:" ^ cls ^ qual) ("error instead of a verdict: " ^ msg ^ (match dupdef with Some n -> " [script defines " ^ n ^ " twice]" | None -> "")
+                                      ^ (match usebefore with Some n -> " [script uses " ^ n ^ " before declaring it]" | None -> ""))
        | Sexp.List (Sexp.Atom "panic" :: Sexp.Str loc :: rest), _ ->
            res "fail" ("pdr:panic@" ^ loc ^ qual) ("panic instead of a verdict: " ^ (match rest with Sexp.Str m :: _ -> m | _ -> ""))
        | Sexp.Atom "unknown", _ -> res "fail" ("pdr:unknown" ^ qual) "Unknown instead of a verdict"
